@@ -5,6 +5,7 @@ from . import common as C
 from . import l2
 
 REGISTRY = {}
+FALLBACKS = {}          # property id (or '*') -> CLI-only searches run when the in-process harness does not build
 
 
 def prop(pid):
@@ -24,10 +25,17 @@ def prepare(run, need_harness=True, need_cli=False):
             run.model_build_error = out[-4000:]
         else:
             run.model_build_error = None
+        run.harness_ok = True
         if need_harness:
             ok, out = C.build_harness()
             if not ok:
-                raise SystemExit('harness build failed (the tree does not compile with hooks on):\n' + out[-3000:])
+                # the in-process harness no longer compiles against this tree (a type or signature it uses changed): every L1-L3 tie is
+                # broken.  Reported; the check goes on with what does not need the harness (the CLI-based searches for a failing input).
+                run.harness_ok = False
+                errs = [l for l in out.splitlines() if l.startswith('error')][:6]
+                run.violation(dict(kind='harness-does-not-build', note='the in-process harness (which compiles /repo/src and calls it) does not build against this tree: the model-to-code ties through it cannot be evaluated',
+                                   compiler_errors=errs, output_tail=out[-1500:]), no_input=True)
+                need_cli = True
         if need_cli:
             ok, out = C.build_cli()
             if not ok:
@@ -286,7 +294,22 @@ def main(argv):
         return 2
     tier = a.tier if a.tier in ('quick', 'thorough') else 'quick'
     run = C.Run(a.prop, tier, a.seed)
-    REGISTRY[a.prop](run)
+    try:
+        REGISTRY[a.prop](run)
+    except Exception:
+        import traceback
+        tb = traceback.format_exc()
+        if getattr(run, 'harness_ok', True):
+            raise
+        C.log('check body stopped after the harness failed to build:\n' + tb[-1500:])
+    if not getattr(run, 'harness_ok', True):
+        # search for a failing input with what does not need the harness
+        try:
+            for fb in FALLBACKS.get(a.prop, []) + FALLBACKS.get('*', []):
+                fb(run)
+        except Exception:
+            import traceback
+            C.log('fallback search stopped:\n' + traceback.format_exc()[-1500:])
     return run.finish()
 
 
@@ -349,6 +372,70 @@ def oracle_relay(r):
         if sent and (sent[-1][2] == '-' or any(a[2] != '-' for a in sent[:-1])):
             return f'time stamp of {p!r} not exactly on the last chunk'
     return None
+
+
+def c11_concurrent_writer(run):
+    from . import l3
+    import shutil
+    thorough = run.tier == 'thorough'
+    # L4: a concurrent writer appends to / truncates source files after they were listed and before they are read.  The channel capacity
+    # override keeps the source at most about one file ahead of the destination, so "not yet on the destination by a margin of 15 files"
+    # means "not yet read"; the copy order is the directory order (os.scandir = read_dir).  Unchanged code: status 12 "size changed".
+    from . import l4
+    import subprocess, time as _time
+    rng = run.rng
+    prepare_cli_ok, _out = C.build_cli()
+    sbw = l4.Sandbox()
+    try:
+        for trial, mode in enumerate(['append', 'truncate', 'append'] if not thorough else ['append', 'truncate'] * 6):
+            base = os.path.join(sbw.dir, f'w{trial}'); src, dst = base + '/src', base + '/dst'; os.makedirs(src)
+            nfiles, fsize = 70, rng.choice([1000, 4096, 50000])
+            for i in range(nfiles):
+                with open(os.path.join(src, f'f{i:03d}'), 'wb') as f: f.write(l3.content(i + trial * 1000, fsize))
+            order = [e.name for e in os.scandir(src)]
+            p_ = subprocess.Popen([C.CLI_BIN, src + '/', dst + '/', '--no-progress'], env=sbw.env({'RJRSSYNC_VERIF_CAPACITY': '20000'}), stdout=subprocess.PIPE, stderr=subprocess.PIPE)
+            touched, t_end = [], _time.time() + 60
+            while p_.poll() is None and _time.time() < t_end:
+                try:
+                    have = set(os.listdir(dst))
+                except FileNotFoundError:
+                    have = set()
+                if len(have) >= 10:
+                    last = max(order.index(n) for n in have if n in order)
+                    for n in order[last + 15:]:
+                        fp = os.path.join(src, n)
+                        if mode == 'append':
+                            with open(fp, 'ab') as f: f.write(b'GROWN' * rng.choice([1, 1000]))
+                        else:
+                            os.truncate(fp, max(0, fsize - rng.choice([1, 500])))
+                        touched.append(n)
+                    break
+                _time.sleep(0.001)
+            try:
+                out_, err_ = p_.communicate(timeout=90)
+            except subprocess.TimeoutExpired:
+                p_.kill(); out_, err_ = p_.communicate()
+            rc = p_.returncode
+            bad = []
+            if rc == 0:
+                for n in touched:
+                    try:
+                        sb_, db_ = open(os.path.join(src, n), 'rb').read(), open(os.path.join(dst, n), 'rb').read()
+                    except OSError:
+                        continue
+                    if sb_ != db_: bad.append((n, len(sb_), len(db_)))
+            run.case(('concurrent-writer', mode, trial, fsize), bool(touched), sample=dict(layer='L4', writer=mode, file_bytes=fsize, files_changed_before_their_read=len(touched), rc=rc))
+            run.count(f'concurrent-writer:{mode}:' + ('changed-before-read' if touched else 'too-late') + f':rc={rc}'); run.cov['traces_validated_against_impl'] += 1
+            if bad or (touched and rc not in (0, 12)):
+                run.violation(dict(kind='oracle-failed-on-implementation', oracle='a source file whose length at copy time differs from the listed length makes the run fail; status 0 only with identical bytes', layer='L4',
+                                   writer=mode, file_bytes=fsize, rc=rc, files_changed_before_their_read=len(touched), differing=[dict(file=n, source_bytes=a_, dest_bytes=b_) for n, a_, b_ in bad[:4]], stderr=err_.decode(errors='replace')[-400:]))
+                break
+            shutil.rmtree(base, ignore_errors=True)
+    finally:
+        sbw.close()
+
+
+FALLBACKS.setdefault('C11', []).append(c11_concurrent_writer)
 
 
 @prop('C11')
@@ -454,6 +541,7 @@ def check_C11(run):
                                    layer='L3', length=n, previous_dest=pre, impl=ans[:500], dest_entry=e, want=want))
     finally:
         shutil.rmtree(d, ignore_errors=True)
+    c11_concurrent_writer(run)
     # L2 relay: sources that grow / shrink between listing and read
     rng = run.rng
     scs = []
